@@ -3,6 +3,8 @@
 # check of its property exit 1 with a VIOLATION line; the unchanged tree must exit 0.
 # usage: selftest/run.sh [ID...]
 cd /verif
+# evidence of mutated trees goes to a scratch directory, never to /verif/evidence
+export VERIF_EVIDENCE_DIR=$(mktemp -d); trap 'rm -rf "$VERIF_EVIDENCE_DIR"' EXIT
 ids="$@"
 [ -z "$ids" ] && ids=$(ls selftest/mutants)
 fail=0
